@@ -1,6 +1,7 @@
 package checks
 
 import (
+	"encoding/json"
 	"fmt"
 	"sort"
 	"strings"
@@ -82,7 +83,7 @@ func init() {
 	// a third party squats the name of a slice PKO deleted earlier, with other content and no owner
 	// tpDeletePhase: a third party deletes one of the existing ObjectSetPhases (I = which): the ObjectSet re-creates it
 	extraOps["tpDeletePhase"] = func(r *Runner, st Step) error {
-		keys := append(r.W.ListKeys(engine.PKOGroup, "ObjectSetPhase"), r.W.ListKeys(engine.PKOGroup, "ClusterObjectSetPhase")...)
+		keys := r.byAge(append(r.W.ListKeys(engine.PKOGroup, "ObjectSetPhase"), r.W.ListKeys(engine.PKOGroup, "ClusterObjectSetPhase")...))
 		if len(keys) == 0 {
 			return nil
 		}
@@ -214,6 +215,75 @@ func RunDifferential(prop, keyPrefix string, a, b *Scenario, monsA, monsB []Moni
 		}
 		pa, pb := projectWorld(ra), projectWorld(rb)
 		if !kubesim.JSONEqual(mustNorm(pa), mustNorm(pb)) {
+			return rb.Labels, Violf(prop, keyPrefix+"-state-differs", "after step %d (%s) the projected cluster state differs: %s", i, a.Steps[i].Op, firstDiff(pa, pb))
+		}
+	}
+	for l := range ra.Labels {
+		rb.Labels[l] = true
+	}
+	return rb.Labels, nil
+}
+
+// canonNames replaces the generated names of the deployment's ObjectSets (which contain the template hash, and so depend
+// on how the template is encoded) by their creation rank, everywhere in a projection or a list of writes.
+func canonNames(r *Runner, v any) any {
+	var names []string
+	seen := map[string]bool{}
+	for _, c := range r.W.Store.Trace {
+		if c.Verb == "create" && (c.Key.Kind == "ObjectSet" || c.Key.Kind == "ClusterObjectSet") && c.Post != nil && !seen[c.Key.Name] {
+			seen[c.Key.Name] = true
+			names = append(names, c.Key.Name)
+		}
+	}
+	js := mustJSON(v)
+	for i, n := range names {
+		js = strings.ReplaceAll(js, n, fmt.Sprintf("revision-created-#%d", i+1))
+	}
+	var out any
+	if err := json.Unmarshal([]byte(js), &out); err != nil {
+		panic(err)
+	}
+	// lists that were sorted by the generated names are sorted again
+	if m, ok := out.(map[string]any); ok {
+		for _, v := range m {
+			if om, ok := v.(map[string]any); ok {
+				if l, ok := om["owners"].([]any); ok {
+					sort.Slice(l, func(i, j int) bool { return asStr(l[i]) < asStr(l[j]) })
+				}
+			}
+		}
+	}
+	return out
+}
+
+// RunDifferentialDeploy is RunDifferential for deployment scenarios: generated ObjectSet names are canonicalised before
+// comparing, ObjectSlices and the deployment object itself (whose template differs by construction) are not compared.
+func RunDifferentialDeploy(prop, keyPrefix string, a, b *Scenario) (labels map[string]bool, err error) {
+	ra, rb := NewRunner(a), NewRunner(b)
+	for i := range a.Steps {
+		fa, fb := len(ra.W.Store.Trace), len(rb.W.Store.Trace)
+		// (the deployment flavour is a process-wide setting read by the step implementations)
+		DepCluster = a.ClusterDep
+		if e := ra.Exec(i, a.Steps[i]); e != nil {
+			return ra.Labels, e
+		}
+		DepCluster = b.ClusterDep
+		if e := rb.Exec(i, b.Steps[i]); e != nil {
+			return rb.Labels, e
+		}
+		for _, c := range rb.W.Store.Trace[fb:] {
+			if c.Actor == "pko" && (c.Key.Kind == "ObjectSet" || c.Key.Kind == "ClusterObjectSet") && c.Err == "" && !c.DryRun &&
+				(c.Verb == "delete" || (c.Verb == "update" && c.Pre != nil && c.Post != nil && lifecycleOf(c.Pre) != "Archived" && lifecycleOf(c.Post) == "Archived")) {
+				rb.Labels["revision-archived-or-pruned"] = true
+			}
+		}
+		wa, wb := poolWritesOf(ra, fa), poolWritesOf(rb, fb)
+		if strings.Join(wa, "\n") != strings.Join(wb, "\n") {
+			return rb.Labels, Violf(prop, keyPrefix+"-write-sequence-differs", "step %d (%+v): writes on managed objects differ\n  variant A: %v\n  variant B: %v", i, a.Steps[i].Op, wa, wb)
+		}
+		pa, _ := canonNames(ra, projectWorld(ra)).(map[string]any)
+		pb, _ := canonNames(rb, projectWorld(rb)).(map[string]any)
+		if !kubesim.JSONEqual(pa, pb) {
 			return rb.Labels, Violf(prop, keyPrefix+"-state-differs", "after step %d (%s) the projected cluster state differs: %s", i, a.Steps[i].Op, firstDiff(pa, pb))
 		}
 	}
